@@ -16,7 +16,7 @@ StepCaller == /\ CallerCanStep(st)
               /\ st' = IF Grain = "micro" THEN CallerStep(st) ELSE RunCaller(st)
 Start(good) == /\ CanStartRpc(st) /\ (good \/ BadRpc)
                /\ st' = IF Grain = "micro" THEN StartRpc(st, good) ELSE RunCaller(StartRpc(st, good))
-Drop(t) == /\ FutLive(st, t) /\ st.drops < MaxDrops
+Drop(t) == /\ FutDroppable(st, t) /\ st.drops < MaxDrops
            /\ (DropHolding \/ st.held[t].id = 0)
            /\ st' = DropFut(st, t)
 DropC == /\ Faults /\ st.cpc # "idle" /\ st' = DropCaller(st)
